@@ -153,6 +153,17 @@ def spec_call(ex, st, e, cx, k):
         cn = e.args[1].value if isinstance(e.args[1], ast.Constant) else e.args[1].id
         ids = [ex.repo.class_ids[cn]]
         return k(st, SV(BOOL, z3.And(v.z != 0, ex.clsof(v.z) == ids[0])))
+    if nm == 'domain_empty':
+        v = ex.pure(st, e.args[0], cx)
+        kq = z3.Const('k!de', T.sort_of(v.ty.args[0]))
+        dom = ex.dict_dom(st, v)
+        return k(st, SV(BOOL, z3.ForAll([kq], z3.Not(z3.Select(dom, kq)), patterns=[z3.Select(dom, kq)])))
+    if nm == 'str_lower':
+        v = ex.pure(st, e.args[0], cx)
+        return k(st, SV(STR, ex.uf('str_lower', z3.StringSort(), z3.StringSort())(v.z)))
+    if nm == 'cfg_key_at':
+        c_, i_ = ex.pure(st, e.args[0], cx), ex.pure(st, e.args[1], cx)
+        return k(st, SV(STR, ex.uf('cfg_key_at', z3.IntSort(), z3.IntSort(), z3.StringSort())(c_.z, i_.z)))
     if nm in ('cfg_int', 'cfg_str', 'cfg_bool'):
         v = ex.pure(st, e.args[0], cx)
         return k(st, ex.coerce(v, {'cfg_int': INT, 'cfg_str': STR, 'cfg_bool': BOOL}[nm]))
